@@ -74,7 +74,7 @@ ErrorCode gdsii_read_record(FILE* in, uint8_t* buffer, uint64_t& buffer_count) {
         buffer_count = read_length;
         return ErrorCode::NoError;
     }
-    if (buffer_count < 4 + record_length) {
+    if (buffer_count < record_length) {
         if (error_logger) fputs("[GDSTK] Insufficient memory in buffer.\n", error_logger);
         buffer_count = read_length;
         return ErrorCode::InsufficientMemory;
